@@ -572,7 +572,9 @@ class Check:
                         "cases": [dict(what=f.what, **f.detail) for f in fs[:20]],
                         "count": len(fs),
                     }, fh, indent=1, default=str)
-                suffix = "" if kind == "property" else " no-failing-input-found"
+                # the suffix is for a run in which NO input was found on which the
+                # property itself fails
+                suffix = "" if (kind == "property" or any_prop_failure) else " no-failing-input-found"
                 # when a property failure exists, broken correspondences are
                 # explained by it: still list them, without the suffix rule
                 # changing (each line describes its own replay)
